@@ -189,7 +189,7 @@ static const char *vh_step(const vh_step_t *st, vh_sb *ret, vh_sb *state) {
         armed = 1;
         setitimer(ITIMER_VIRTUAL, &tv, NULL);
         if (prelude == 4) earlier_refused_parse();
-        errno = prelude == 1 ? ERANGE : prelude == 2 ? EINTR : prelude == 3 ? EAGAIN : errno;
+        errno = prelude == 1 ? ERANGE : prelude == 2 ? EINTR : prelude == 3 ? EAGAIN : prelude == 0 ? 0 : errno;   /* fresh = errno 0 */
         spifopt_parse(ac, av);
         armed = 0;
         setitimer(ITIMER_VIRTUAL, &off, NULL);
